@@ -615,6 +615,22 @@ Fixpoint rtree_eqb (a b : rtree) {struct a} : bool :=
   | _, _ => false
   end.
 
+(* the document with every ciphertext blanked: {method, ciphertext} -> the method name *)
+Fixpoint doc_shape (d : rtree) : pyval :=
+  match d with
+  | RNull => PNone
+  | RStr s => PStr s
+  | RMap es =>
+      match rget (sa "method") es with
+      | Some (RStr m) => PTuple [PStr m]
+      | _ => PDict 0 ((fix go (l : list (str * rtree)) : list (pyval * pyval) :=
+                         match l with [] => [] | (k, x) :: r => (PStr k, doc_shape x) :: go r end) es)
+      end
+  | RSeq [] => PNone     (* an unset typed list (null) and an empty one ([]) are not distinguished *)
+  | RSeq l => PList 0 ((fix go (l : list rtree) : list pyval :=
+                          match l with [] => [] | x :: r => doc_shape x :: go r end) l)
+  end.
+
 (* (AES available?, key files existing beforehand, the configuration as built, the history,
     the root key file given to the new session's configuration) *)
 Definition scase := (bool * list path * snode * list sop * option path)%type.
@@ -637,6 +653,8 @@ Definition run_secrets (c : scase) : pyval :=
                (* key files read / created by the final dump *)
                o_effects (effects toy_key fs (snd r));
                PBool (known_F34 t);
+               (* the document, ciphertexts blanked *)
+               doc_shape (fst r);
                match load_tree aes toy_dec toy_unb64 toy_key fs1 tg (fst r) with
                | Ok (t', ops') =>
                    if rtree_eqb (plain t') (plain t)
